@@ -30,6 +30,9 @@ CORPUS = [
       "a": 'pub fn b_f() { println("a.b_f"); }\nfn main() { }\nlet k = 1;',
       "a_b": 'pub fn f() { println("a_b.f"); }\nfn main() { }\nlet k2 = 1;'}, "V26"),
     ({"main": 'fn main() { let a1 = "keep"; ' + " ".join("{ let a = %d; if a < 0 { println(a); } }" % i for i in range(10)) + ' let a = 99; println(a1); println(a); }'}, "V26"),
+    ({"main": "import templ FooFeature from templates;\n$Device = { b: int };\nimpl FooFeature with { light, temperature } for $Device {\n"
+              "    fn dim(self: $Device, percent: int) -> bool { true }\n    fn set_temp(self: $Device, celsius: float) { }\n}\nfn main() { }\n"}, "A13"),
+    ({"main": "fn main() { let x = 1; let r = match x { 1 => 10, _ => match x { 2 => 20, _ => match x { 3 => 30, _ => zz } } }; println(r); }"}, "A14"),
     ({"main": "fn main() { let u1 = 1; let u2 = 2; let u3 = 3; let u4 = 4; let u5 = 5; let u6 = 6; }\nfn q1() { }\nfn q2() { }\nfn q3() { }"}, "warnings"),
 ]
 
